@@ -1,7 +1,7 @@
 //! C15 RTO estimate follows RFC 6298 with Karn's rule and goes stale after 10 minutes.
 
 use super::explore::{self, Event, Monitor, Step, Target};
-use super::server::{RClass, Reply};
+use super::server::{Chal, NonceKind, PasKind, RClass, RMac, Reply};
 use super::world::{CallRes, Cfg, Mech, OEv, Transport, World, MS};
 use crate::refs::codec::L;
 use crate::util::{Finish, Report, RunCtx, Shared};
@@ -149,7 +149,17 @@ pub fn run_chain(cfg: &Cfg, apps: &Arc<Vec<Vec<L>>>, chain: &[(Delay, Gap)], rep
         rep.nontrivial(&(cfg, k, (got / 1000.0) as u64));
         // play the transaction
         let rto_i = run.w.reqs[i].rto_ns;
-        let mut ok = Reply::plain(RClass::Success);
+        // the answer that completes a transaction under the configured mechanism: a plain success, a success carrying a
+        // valid MESSAGE-INTEGRITY (short-term), or a 401 challenge with a fresh nonce (long-term: the application is told
+        // to retry - a completed transaction like any other as far as the estimator is concerned)
+        let (mut ok, err_reply) = match cfg.mech {
+            Mech::None => (Reply::plain(RClass::Success), Reply::plain(RClass::Error(400))),
+            Mech::ShortTerm(_) => (Reply::plain(RClass::Success).with_mac(RMac::Mi), Reply::plain(RClass::Error(400)).with_mac(RMac::Mi)),
+            Mech::LongTerm => {
+                let c = Reply::plain(RClass::Error(401)).with_chal(Chal { realm: true, nonce: NonceKind::Plain((k % 5) as u8), pas: PasKind::Absent, realm_v: 0, order: 0 });
+                (c, c)
+            }
+        };
         let mut retransmitted = false;
         if let Delay::Overlap(a_ms, b_ms) = delay {
             // two overlapping transactions: the second starts on the same estimate (no sample yet)
@@ -200,7 +210,7 @@ pub fn run_chain(cfg: &Cfg, apps: &Arc<Vec<Vec<L>>>, chain: &[(Delay, Gap)], rep
         let answer_at = match delay {
             Delay::Overlap(..) => unreachable!(),
             Delay::ErrorMs(ms) => {
-                ok = Reply::plain(RClass::Error(400));
+                ok = err_reply;
                 rep.sym("error-response-sampled");
                 Some(t0 + ms * MS)
             }
@@ -303,8 +313,12 @@ pub fn run(ctx: &RunCtx) -> i32 {
     let mut cfgs = vec![];
     for rto in [100u64, 500, 3000] {
         for gran in [1u64, 10, 1000] {
-            cfgs.push(Cfg { transport: Transport::Unreliable { rto_ms: rto, gran_ms: gran, rm: 16, rc: 7 }, mech: Mech::None, fingerprint: false, max_tx: 10 });
+            cfgs.push(Cfg { transport: Transport::Unreliable { rto_ms: rto, gran_ms: gran, rm: 16, rc: 7 }, mech: Mech::None, fingerprint: false, max_tx: 10, cred: 0, method: 1 });
         }
+    }
+    // the estimator is fed by the client, not by the mechanism: the same chains with short-term and long-term credentials
+    for mech in [Mech::ShortTerm(Some(false)), Mech::LongTerm] {
+        cfgs.push(Cfg { transport: Transport::Unreliable { rto_ms: 500, gran_ms: 1, rm: 16, rc: 7 }, mech, fingerprint: false, max_tx: 10, cred: 0, method: 1 });
     }
     let full: Vec<(Delay, Gap)> = delays.iter().flat_map(|d| gaps.iter().map(move |g| (*d, *g))).collect();
     let red: Vec<(Delay, Gap)> = red_delays.iter().flat_map(|d| red_gaps.iter().map(move |g| (*d, *g))).collect();
@@ -372,7 +386,7 @@ pub fn run(ctx: &RunCtx) -> i32 {
         rep,
         Finish {
             level: "model_checking",
-            rule: format!("for RTO {{100, 500, 3000}} ms x granularity {{1, 10, 1000}} ms: every chain of {} transactions over 11 response behaviours (1 / 7 / 100 ms, 1 ms before the first retransmission, after one / two retransmissions, never answered, an error response, an early timer call followed by the answer, two overlapping requests answered in either order) x 6 gaps (immediately, 1 s, 599.999 s, 600 s, 600.001 s, 1200 s between consecutive request instants), every chain of {} transactions over a reduced 4 x 3 menu, and every periodic chain of period <= 3 over 6 response behaviours repeated to 300 transactions ({} chains in total), executed on the real client. After every send the interval recorded for the transaction (H1), the estimator value (H1) and the announced duration are compared with a double-precision RFC 6298 reference (first sample SRTT=R, RTTVAR=R/2; later RTTVAR before SRTT; RTO=SRTT+max(G,4*RTTVAR); sample iff completed without retransmission; reset iff more than 600 s since the previous request) within 1e-5 relative + 1 microsecond", full_len, red_len, n_jobs),
+            rule: format!("for RTO {{100, 500, 3000}} ms x granularity {{1, 10, 1000}} ms without credentials, and RTO 500 ms with short-term credentials (answers carry a valid MESSAGE-INTEGRITY) and long-term credentials (every answer is a 401 challenge with a fresh nonce, i.e. a Retry outcome): every chain of {} transactions over 11 response behaviours (1 / 7 / 100 ms, 1 ms before the first retransmission, after one / two retransmissions, never answered, an error response, an early timer call followed by the answer, two overlapping requests answered in either order) x 6 gaps (immediately, 1 s, 599.999 s, 600 s, 600.001 s, 1200 s between consecutive request instants), every chain of {} transactions over a reduced 4 x 3 menu, and every periodic chain of period <= 3 over 6 response behaviours repeated to 300 transactions ({} chains in total), executed on the real client. After every send the interval recorded for the transaction (H1), the estimator value (H1) and the announced duration are compared with a double-precision RFC 6298 reference (first sample SRTT=R, RTTVAR=R/2; later RTTVAR before SRTT; RTO=SRTT+max(G,4*RTTVAR); sample iff completed without retransmission; reset iff more than 600 s since the previous request) within 1e-5 relative + 1 microsecond", full_len, red_len, n_jobs),
             assumptions: vec!["zero-length response times are excluded as the statement says".into(), "verdicts are taken after every send, so chains of the maximal length cover all shorter ones".into()],
             required_symbols: vec!["sampled", "not-sampled-after-retransmission", "not-sampled-timed-out", "gap-beyond-600s", "gap-exactly-600s", "periodic-300", "sampled-overlapping", "error-response-sampled", "early-timer-then-answer"],
             min_outcomes: 2,
